@@ -1267,6 +1267,10 @@ class Interp:
             c = self.cell(obj)
             if isinstance(c, HObj):
                 mname = self.mangle(name, frame)
+                if name == '__class__' and isinstance(val, VClass):
+                    # entity.__class__ = Subclass: the object keeps its fields and changes its class (used by the entity parsers)
+                    self.st.heap[obj.loc] = HObj(val.info, c.fields, c.extname)
+                    return
                 if c.cls is not None:
                     s = c.cls.find_setter(self.repo, name)
                     if s is not None:
@@ -1567,10 +1571,10 @@ class Interp:
         if mode == 'inline':
             self.inlined_used.add(key)
             return self.run_function(fi, f.self_val, args, kwargs, node)
-        # no contract, not declared opaque: execute the real body symbolically (auto-inline), bounded in depth and
+        # no contract, not declared opaque: execute the real body symbolically (auto-inline), bounded in depth (6) and
         # never recursively.  Sound (it is the code that runs); it only costs modularity.  Reported under "inlined".
         stack = self.__dict__.setdefault('auto_inline_stack', [])
-        if len(stack) < 3 and key not in stack:
+        if len(stack) < 6 and key not in stack:
             stack.append(key)
             self.inlined_used.add(key)
             try:
